@@ -8,6 +8,7 @@ Sub-checks
   grid     : exhaustive — every non-empty subset of the time points {0,1,2,4,7} x every query in -2..9 x every
              tolerance in {0,1,2,3,10}: lookup decisions (which frame / None / interpolate) only
 """
+import contextlib
 import itertools
 import math
 
@@ -228,7 +229,8 @@ def manager():
             evaluation_config_dict=cfg,
             load_raw_data=False,
         )
-        _MGR = PerceptionEvaluationManager(evaluation_config=config)
+        with open(os.devnull, "w") as devnull, contextlib.redirect_stderr(devnull):  # tqdm bar of the loader
+            _MGR = PerceptionEvaluationManager(evaluation_config=config)
     return _MGR
 
 
@@ -392,6 +394,10 @@ def _check(ctx, d):
         )
 
 
+def _note_max(ctx, key, v):
+    ctx.notes[key] = max(ctx.notes.get(key, 0.0), float(f"{v:.3e}"))
+
+
 def _check_interpolated(ctx, d, out, frames, ids, ref_pose, ib, ia, alpha, t, qclass):
     from perception_eval.common.dataset import FrameGroundTruth
 
@@ -449,6 +455,7 @@ def _check_interpolated(ctx, d, out, frames, ids, ref_pose, ib, ia, alpha, t, qc
             f"uuid {o.uuid}: pose {p} {q}",
         )
         perr = R.pos_err(p, p_ref)
+        _note_max(ctx, "max_position_error_over_tolerance(first shard)", perr / R.pos_tol(p_ref))
         ctx.require(
             perr <= R.pos_tol(p_ref),
             sig + f"-{tag}-position",
@@ -471,6 +478,9 @@ def _check_interpolated(ctx, d, out, frames, ids, ref_pose, ib, ia, alpha, t, qc
             if sum(x * y for x, y in zip(qb, qa)) < 0:
                 ctx.cls("opposite_sign_quaternions")
         rerr = R.rot_angle(q, q_ref)
+        _note_max(ctx, "max_orientation_error_over_tolerance(first shard)", rerr / rot_tol)
+        if rot_tol == ROT_TOL:
+            _note_max(ctx, "max_orientation_error_rad_where_tolerance_is_1e-9(first shard)", rerr)
         ctx.require(
             rerr <= rot_tol,
             sig + f"-{tag}-orientation",
